@@ -37,7 +37,7 @@ func TestMain(m *testing.M) {
 	core.DeclareFaults("rng-id-collision-live", "rng-id-collision-dead", "rng-id-zero", "rng-id-max", "add-fails-after-id-draw")
 	core.DeclareProbes("redraw-loop-taken", "start-from-parsed-handle", "branch-to-earlier-handle", "refused-disable-primary", "refused-delete-primary",
 		"refused-setprimary-nonenabled", "op-on-absent-id", "addkey-idreq-collision", "addkey-idreq-kept", "same-key-twice", "readd-deleted-fixed-id",
-		"handle-fails-no-primary", "old-handle-reinspected", "enable-destroyed", "error-leaves-unchanged-checked", "nil-template", "unknown-prefix-template", "add-custom-key-type(legacy NewKeyData path)")
+		"handle-fails-no-primary", "old-handle-reinspected", "enable-destroyed", "error-leaves-unchanged-checked", "nil-template", "unknown-prefix-template", "add-custom-key-type(legacy NewKeyData path)", "malformed-start-keyset-refused")
 	// "add-refused-after-scripted-collisions" and "manager-designated-primary-itself" cannot occur on today's tree; they
 	// are counted if an otherwise conforming manager ever does that
 	stubkm.Register()
@@ -491,6 +491,40 @@ func (w *world) startFromParsed() {
 			k.Status = tinkpb.KeyStatusType_DESTROYED
 		}
 	}
+	// "starting … from any handle": sometimes the stored keyset repeats a key ID (the earlier occurrence not ENABLED).
+	// The reader has to refuse it; should it ever hand out a handle, the manager started from it is held to C11's
+	// invariants like any other.
+	if len(ks.Key) >= 2 && rapid.IntRange(0, 7).Draw(w.t, "startDuplicateID") == 7 {
+		bad := proto.Clone(ks).(*tinkpb.Keyset)
+		i := rapid.IntRange(0, len(bad.Key)-1).Draw(w.t, "dupOf")
+		if i != prim {
+			dup := proto.Clone(bad.Key[i]).(*tinkpb.Keyset_Key)
+			dup.Status = tinkpb.KeyStatusType_ENABLED
+			if bad.Key[i].Status == tinkpb.KeyStatusType_ENABLED {
+				bad.Key[i].Status = tinkpb.KeyStatusType_DISABLED
+			}
+			bad.Key = append(bad.Key, dup)
+			var hb *keyset.Handle
+			var berr error
+			func() {
+				defer w.catch("Read(duplicate-id keyset)")
+				hb, berr = insecurecleartextkeyset.Read(&keyset.MemReaderWriter{Keyset: bad})
+			}()
+			if berr != nil || hb == nil {
+				w.r.Probe("malformed-start-keyset-refused")
+			} else {
+				ids := map[uint32]bool{}
+				for k := 0; k < hb.Len(); k++ {
+					if e, err := hb.Entry(k); err == nil {
+						if ids[e.KeyID()] {
+							w.r.Violation("C11/duplicate-key-id", fmt.Sprintf("a handle read from a keyset that repeats key ID %d was handed out; NewManagerFromHandle(h).Handle() would carry the duplicate", e.KeyID()))
+						}
+						ids[e.KeyID()] = true
+					}
+				}
+			}
+		}
+	}
 	h, err := insecurecleartextkeyset.Read(&keyset.MemReaderWriter{Keyset: ks})
 	if err != nil {
 		w.t.Fatalf("harness: start keyset does not parse: %v", err)
@@ -545,8 +579,6 @@ func (w *world) step(op string) {
 			op = "Add"
 			if strings.HasPrefix(tpl.name, "STUB-") {
 				r.Probe("add-custom-key-type(legacy NewKeyData path)")
-	// "add-refused-after-scripted-collisions" and "manager-designated-primary-itself" cannot occur on today's tree; they
-	// are counted if an otherwise conforming manager ever does that
 			}
 			func() { defer w.catch("Add"); id, err = w.mgr.Add(kt) }()
 		} else {
